@@ -216,9 +216,8 @@ def exec (tok : String) (st : List Val) : Option (List Val) :=
   | ["div"], .r b :: .r a :: st => some (liftR (SrcPoly.rat_div a b) :: st)
   | ["mkr"], .p b :: .p a :: st => some (.r (a, b) :: st)
   | ["rdiv", k], .r a :: st => k.toInt?.map fun k => liftR (SrcPoly.rat_rdiv_int a k) :: st
-  | ["pow", k], .p a :: st => k.toNat?.map fun k => liftP (powWith SrcPoly.poly_mul a k) :: st
-  | ["pow", k], .r a :: st => k.toInt?.map fun k =>
-      liftR (if k < 0 then do SrcPoly.rat_rdiv_int (← powWith SrcPoly.rat_mul a k.natAbs) 1 else powWith SrcPoly.rat_mul a k.toNat) :: st
+  | ["pow", k], .p a :: st => k.toInt?.map fun k => liftP (SrcPoly.poly_pow a k) :: st
+  | ["pow", k], .r a :: st => k.toInt?.map fun k => liftR (SrcPoly.rat_pow a k) :: st
   | ["eq"], .p b :: .p a :: st => some (liftB (SrcPoly.poly_eq a b) :: st)
   | ["eq"], .r b :: .r a :: st => some (liftB (SrcPoly.rat_eq a b) :: st)
   | ["eq0"], .p a :: st => some (liftB (SrcPoly.poly_eq_int a 0) :: st)
